@@ -1663,6 +1663,11 @@ impl Tree {
 		// Table ids and value-log file ids are rewound: nothing cached under them is valid
 		self.core.inner.opts.block_cache.clear();
 
+		// The value log still writes to, and reads from, the files of the discarded timeline
+		if let Some(ref vlog) = self.core.inner.vlog {
+			vlog.reset_after_restore()?;
+		}
+
 		// Clear the current memtables since they would be stale after restore
 		// This discards any pending writes, which is correct for restore operations
 		{
